@@ -1,6 +1,7 @@
 SPECIFICATION SimSpec
 CONSTANTS
   WorkerCpus <- C_Workers
+  LateWorkers <- C_Late
   WorkerGroup <- C_Groups
   WorkerLife <- C_Life
   MaxTicks = 0
